@@ -122,6 +122,14 @@ def jwJelliumDirectOk (lengths : List Nat) (spinless : Bool) (kin pot : List Nat
 
 end
 
+/-- the hypotheses on the coefficient functions of `jw_jellium_direct_sound`, as a decidable check: `K`, `P` even
+functions of the displacement and `Σ_δ P(δ) = 0`; evaluated by the driver -/
+def jelliumHypOk (lengths : List Nat) (kin pot : List Nat → GQ) : Bool :=
+  let pts := allPoints lengths
+  (pts.all fun u => pts.all fun v =>
+    kin (subIdx lengths u v) == kin (subIdx lengths v u) && pot (subIdx lengths u v) == pot (subIdx lengths v u))
+  && (pts.map pot).sum == 0
+
 /-- coefficient function from a table indexed by `tensorFactor` of the displacement -/
 def tableFn (lengths : List Nat) (table : List GQ) (δ : List Nat) : GQ := table.getD (tensorFactor lengths δ) 0
 
